@@ -49,6 +49,9 @@ class Entry:
         self.d1 = kw.pop('d1', False)   # generic D1: split or-patterns that carry a guard
         self.d8 = kw.pop('d8', False)   # generic D8: closure parameter `_` -> `_x`
         self.with_scope = kw.pop('with_scope', None)   # D17: text of context.rs holding the macro definition -> expand with_scope!
+        self.string_eq = kw.pop('string_eq', None)   # generic D22: `NAME == "lit"` on a String local -> `NAME.as_str() == "lit"`
+        self.for_iter = kw.pop('for_iter', None)     # generic D18: names of iterator locals whose `for` loops become loop/match next
+        self.destruct = kw.pop('destruct', False)    # generic D21: destructuring assignment
         self.strmatch = kw.pop('strmatch', False)   # generic D20: match on &str literals -> if / else-if chain
         self.closures = kw.pop('closures', False)   # generic D3/D16: Option / iterator closures -> match / loop (vlib/closures.py)
         self.all_loops = kw.pop('all_loops', None)     # invariant text applied to every loop without its own
@@ -481,6 +484,24 @@ class Unit:
                 raise Undecided('D17 in %s: %s' % (e.qualname, ex))
             if nws:
                 self.desugar_log.append(('D17', '%s: %d with_scope! invocation(s) expanded by the macro definition of context.rs' % (e.qualname, nws)))
+        if e.string_eq:
+            for nm_ in e.string_eq:
+                text, n22 = re.subn(r'\b%s\s*==\s*"' % re.escape(nm_), '%s.as_str() == "' % nm_, text)
+                if n22:
+                    self.desugar_log.append(('D22', '%s: %d comparison(s) `%s == "…"` (String with &str: compares the characters) written with as_str()' % (e.qualname, n22, nm_)))
+        if e.for_iter or e.destruct:
+            from .closures import desugar_for_iter, desugar_destructuring_assignment, NoRule
+            try:
+                flog = []
+                if e.for_iter:
+                    text, flog = desugar_for_iter(text, e.for_iter)
+                if e.destruct:
+                    text, dlog = desugar_destructuring_assignment(text)
+                    flog += dlog
+            except NoRule as ex:
+                raise Undecided('D18/D21 in %s: %s' % (e.qualname, ex))
+            for ln_ in flog:
+                self.desugar_log.append((ln_.split(' ')[0], '%s: %s' % (e.qualname, ln_)))
         if e.strmatch:
             from .closures import desugar_str_match, NoRule
             try:
